@@ -228,7 +228,9 @@ def r_cost(ctx, view):
                     ok = c == CONST
                     # at most ONE comparison: exactly one reachable comparison site, a selection over a 2-array
                     sites = cmp_sites(view, k)
-                    one = len(sites) == 1 and sites[0][2] == 2
+                    # (one selection over a 2-array = one comparison; one binary comparison outside any loop = one comparison:
+                    #  the class CONST above already excludes loops on the way)
+                    one = len(sites) == 1 and sites[0][2] in (2, "binary")
                     ok = ok and one
                     why = "reachable comparison sites: %s" % [(short(s[0]), s[1], "array of %s" % s[2]) for s in sites]
                 else:
@@ -292,6 +294,6 @@ def cmp_sites(view, key):
         for bb, t in g.calls():
             ci = view.fx.call_info(g, bb)
             if ci.cmp and not ci.local_callee:
-                n = fixed_array_len(view, g, bb) if ci.name in SELECT else None
+                n = fixed_array_len(view, g, bb) if ci.name in SELECT else ("binary" if ci.name in ("lt", "le", "gt", "ge", "cmp", "partial_cmp", "max", "min") else None)
                 out.append((k, t["span"]["line"], n))
     return out
